@@ -43,7 +43,7 @@ def cmd(c, **kw):
 
 def gen_walk(rng, repos, fmts, procs, n):
     """seeded command walk; enabledness is tracked trivially (presence, scanner pc, running searches)."""
-    disk, scan, running, steps = {}, "idle", set(), []
+    disk, scan, running, steps = {}, "idle", {}, []
     files = [(r, f) for r in repos for f in fmts]
     while len(steps) < n:
         x = rng.random()
@@ -69,11 +69,15 @@ def gen_walk(rng, repos, fmts, procs, n):
         elif x < 0.90:
             p = rng.randint(1, procs)
             if p in running:
-                steps.append(cmd("finish", p=p))
-                running.discard(p)
+                if p % 2 == 0 and running[p] == "snap" and rng.random() < 0.6:
+                    steps.append(cmd("read", p=p))
+                    running[p] = "read"
+                else:
+                    steps.append(cmd("finish", p=p))
+                    del running[p]
             else:
                 steps.append(cmd("snap", p=p))
-                running.add(p)
+                running[p] = "snap"
         else:
             steps.append(cmd("gc"))
     return {"repos": repos, "fmts": fmts, "procs": procs, "steps": steps}
@@ -160,7 +164,10 @@ def run(ctx):
     if ctx.thorough:
         shapes.append((["a"], [16, 17, 18], 2, 4, 8))
     strict = [("Reload_strict.cfg", consts(["a"], [16], 1, 0, 4, 10, ["macro"]), []),
-              ("Reload_gap.cfg", consts(["a"], [16, 17], 1, 0, 2, 8, ["macro"]), [cmd("snap", p=2), cmd("finish", p=2)])]
+              ("Reload_gap.cfg", consts(["a"], [16, 17], 1, 0, 2, 8, ["macro"]), [cmd("snap", p=2), cmd("finish", p=2)]),
+              # the model WITHOUT KeepAlive: schedules in which a collection closes a shard whose results are still
+              # referenced; the real code must keep the mapping in exactly these schedules
+              ("Reload_keepalive.cfg", consts(["a"], [16], 2, 0, 2, 12, ["macro"], keep="FALSE"), [])]
     jobs = []
     for i, c in enumerate(mruns):
         jobs.append(("m%d" % i, lambda c=c, i=i: ctx.model_check(
@@ -359,7 +366,7 @@ def run(ctx):
                 if e["ev"] == "obs" and e["round"] == rnd and any(a <= e["s1"] and b >= e["s0"] for a, b in ps):
                     overlap += 1
         ctx.sample({"stress": name, "events": len(evs), "final": [e for e in evs if e["ev"] == "final"][0]["loaded"]})
-    if pubs < 10:
+    if pubs < 10 and not ctx.violations:
         raise vk.Inconclusive("stress produced only %d publications" % pubs)
     nontrivial += overlap
     ctx.assumptions += [
